@@ -7,7 +7,7 @@ from core import call_matches, call_names, op_place, op_local, backward_slice
 from props import shared
 
 LEVEL = 'other'   # known findings F1, F2 are recorded on this tree, so the proof is not complete
-FLOOR = 20
+FLOOR = 22      # 70% of the 32 obligation instances derived on the tree the rules were last reviewed against
 EXPLANATION = ('For every body of the commit entry closure, every path from an effect on shared state (commit-overlay insert, commit-queue push, '
                'value-slot claim, to_dereference counter) to an error exit is reported, with interprocedural lifting (a call that may effect is an '
                'effect site of its caller; its own error edge counts only if the callee can fail after effecting). Plus: the background-error gate '
